@@ -78,10 +78,25 @@ def lookup (C : Crypto) (els : List Token) (h : Bytes) : Option Token := els.fin
 def dictSet (C : Crypto) (els : List Token) (t : Token) : List Token :=
   if hasId C els (t.id C) then els.map (fun x => if x.id C == t.id C then t else x) else els ++ [t]
 
+/-- `self.unchained[token] = None` (an equal key keeps its place and its key object) -/
+def uncStore (unc : List Token) (t : Token) : List Token :=
+  if unc.any (fun x => x.same t) then unc else unc ++ [t]
+
 /-- `self.unchained[token] = None; if len(self.unchained) > max: self.unchained.popitem(False)` -/
 def uncAdd (cap : Nat) (unc : List Token) (t : Token) : List Token :=
-  let u := if unc.any (fun x => x.same t) then unc else unc ++ [t]
-  if u.length > cap then u.drop 1 else u
+  if (uncStore unc t).length > cap then (uncStore unc t).drop 1 else uncStore unc t
+
+theorem uncStore_length_le (unc : List Token) (t : Token) : (uncStore unc t).length ≤ unc.length + 1 := by
+  unfold uncStore
+  split <;> simp
+
+theorem uncAdd_length_le (cap : Nat) (unc : List Token) (t : Token) :
+    (uncAdd cap unc t).length ≤ unc.length + 1 := by
+  have := uncStore_length_le unc t
+  unfold uncAdd
+  split
+  · simp only [List.length_drop]; omega
+  · exact this
 
 /-- the duplicate branch of gather_token: the stored token takes over the content of the offered one -/
 def absorb (C : Crypto) (els : List Token) (t : Token) : List Token :=
@@ -126,10 +141,7 @@ termination_by (unc.length + stack.length, stack.length)
 decreasing_by
   · simp_wf; apply Prod.Lex.left; omega
   · simp_wf
-    have h : (uncAdd cap unc r).length ≤ unc.length + 1 := by
-      unfold uncAdd
-      simp only []
-      split <;> split <;> simp <;> omega
+    have h : (uncAdd cap unc r).length ≤ unc.length + 1 := uncAdd_length_le cap unc r
     rcases Nat.lt_or_ge ((uncAdd cap unc r).length + rest.length) (unc.length + (rest.length + 1)) with h1 | h1
     · exact Prod.Lex.left _ _ h1
     · have : (uncAdd cap unc r).length + rest.length = unc.length + (rest.length + 1) := by omega
